@@ -270,6 +270,7 @@ for _pid, (_t, _x) in ADD6.items():
 ADD7 = {
     "C09": ("; close-error typestate of the archive writers the export creates", " Also: the error of finishing the tar stream and the compressed stream reaches the caller of the export (found D20)."),
     "C11": ("; backward slice from stores into secret fields to the text they are cut out of, met with the logger arguments", " Also: the string or map a password is parsed out of does not reach the log (found D23)."),
+    "C17": ("; response typestate: every reghttp response of the registry scheme is closed, deferred-closed or handed on before any return", " Also: no function of the registry scheme returns with an open response (found D24)."),
     "C18": ("; must-not-reach from the failure edges of the backup copy and of the target lookup to the overwriting copy", " Also: a failed backup stops the overwrite and a failed target lookup is not taken for an absent tag (both violated on the unchanged tree: known findings D21, D22)."),
 }
 for _pid, (_t, _x) in ADD7.items():
